@@ -98,14 +98,19 @@ func hostileManifest(r *simkit.RNG, strs []string) string {
 		}
 		return simkit.Pick(r, pool)
 	}
-	locals := []string{"pkgdir", "..", ".", "a/b", "a\\b", "", "/abs", "terraform-sources.json", "../x", "x/..", "pkgdir/", "/", "..\\..", "pkgdir\x00", "ü"}
+	locals := []string{"pkgdir", "pkgdir", "pkgdir0", "pkg", "pkgdir-old", "..", ".", "a/b", "a\\b", "", "/abs", "terraform-sources.json", "../x", "x/..", "pkgdir/", "/", "..\\..", "pkgdir\x00", "ü"}
 	sources := []string{"git::https://example.com/x.git", "https://example.com/x.tgz", "git::https://example.com/x.git//sub", "garbage", "", "./local", "https://user:pw@example.com/x.tgz", "git::https://example.com/x.git?ref=a"}
 	regs := []string{"example.com/a/b/c", "a/b/c", "example.com/a/b/c//sub", "garbage", "", "a/b"}
 	vers := []string{"1.0.0", "1.0.0-beta", "not-a-version", "", "1", "v1.0.0", "1.0.0+b", "0.0.0"}
-	doc := map[string]interface{}{"terraform_source_bundle": simkit.Pick(r, []interface{}{1, 1, 1, 0, 2, "1", -1, 1.5, nil})}
+	doc := map[string]interface{}{"terraform_source_bundle": simkit.Pick(r, []interface{}{1, 1, 1, 1, 1, 1, 0, 2, "1", -1, 1.5, nil})}
 	var pkgs []interface{}
 	for i := r.Range(0, 3); i > 0; i-- {
 		e := map[string]interface{}{"source": pick(sources), "local": pick(locals)}
+		if r.Chance(1, 2) {
+			// well-formed entries with distinct addresses, so that the manifest opens
+			e["source"] = fmt.Sprintf("git::https://example.com/h%d.git", i)
+			e["local"] = simkit.Pick(r, []string{"pkgdir", "pkgdir0", "pkg", "pkgdir-old"})
+		}
 		if r.Chance(1, 2) {
 			e["meta"] = map[string]interface{}{"git_commit_id": pick([]string{"abc", ""}), "git_commit_message": "m"}
 		}
